@@ -499,9 +499,5 @@ class Scanner(AsyncScript, ABC):
     async def teardown(self) -> None:
         await self.transport.close()
 
-        if self.db_handler is not None:
-            # Close the DB handler that was opened in `setup`
-            await self.db_handler.disconnect()
-
         if self.dumpcap:
             await self.dumpcap.stop()
